@@ -4,6 +4,7 @@ package sftp_test
 
 import (
 	"bytes"
+	"crypto/sha256"
 	"fmt"
 	"os"
 	"sort"
@@ -27,8 +28,9 @@ type vfCaseC15 struct {
 	Size    int
 	Handles int
 	Gs      [][]vfC15Op
-	Gate    bool  // request server: park handler calls and release them in a drawn order
-	Release []int `json:",omitempty"`
+	Gate    bool   // request server: park handler calls and release them in a drawn order
+	Release []int  `json:",omitempty"`
+	MaxTx   uint32 `json:",omitempty"` // request server: WithRSMaxTxPacket (0 = default 32768)
 	Opts    vfOpts
 }
 
@@ -37,6 +39,19 @@ func vfGenC15(t *rapid.T) vfCaseC15 {
 	c.Size = rapid.SampledFrom([]int{16, 64}).Draw(t, "size")
 	c.Handles = rapid.IntRange(1, 2).Draw(t, "handles")
 	c.Opts = vfOpts{MaxPacket: rapid.SampledFrom([]int{8, 16, 1000, 32768}).Draw(t, "maxpacket"), Conc: rapid.SampledFrom([]int{1, 2, 64}).Draw(t, "conc"), CRead: rapid.Bool().Draw(t, "cread"), CWrite: rapid.Bool().Draw(t, "cwrite")}
+	// Operations of tens of kilobytes that still fit in one packet (seed C15-b): "mid" stays inside the default
+	// 32 KiB limit of both sides, "big" raises it on both sides (a read longer than the server's limit is
+	// completed by the client with a second request and is not one step).
+	shape := "small"
+	if c.Kind == "rs" {
+		shape = rapid.SampledFrom([]string{"small", "small", "mid", "big"}).Draw(t, "shape")
+	}
+	switch shape {
+	case "mid":
+		c.Size, c.Opts.MaxPacket = 65536, 32768
+	case "big":
+		c.Size, c.Opts.MaxPacket, c.MaxTx = 98304, 65536, 65536
+	}
 	ng := rapid.IntRange(2, 4).Draw(t, "goroutines")
 	for g := 0; g < ng; g++ {
 		n := rapid.IntRange(1, 5).Draw(t, "nops")
@@ -54,6 +69,14 @@ func vfGenC15(t *rapid.T) vfCaseC15 {
 				}
 				// a narrow band of offsets so that operations overlap
 				op.Off = rapid.IntRange(0, minInt(c.Size-op.N, 12)).Draw(t, "off")
+				switch shape {
+				case "mid":
+					op.N = rapid.SampledFrom([]int{1, 1000, 32767, 32768}).Draw(t, "nmid")
+					op.Off = rapid.SampledFrom([]int{0, 1, 999, 32768, c.Size - op.N}).Draw(t, "offmid")
+				case "big":
+					op.N = rapid.SampledFrom([]int{32769, 40000, 49152, 65536}).Draw(t, "nbig")
+					op.Off = rapid.SampledFrom([]int{0, 1, 100, c.Size - op.N}).Draw(t, "offbig")
+				}
 			}
 			prog = append(prog, op)
 		}
@@ -93,6 +116,10 @@ func vfLinearizable(ops []vfLinOp, init []byte) (bool, string) {
 			return true
 		}
 		k := key{mask, string(state)}
+		if len(state) > 256 {
+			h := sha256.Sum256(state)
+			k.state = string(h[:])
+		}
 		if seen[k] {
 			return false
 		}
@@ -134,14 +161,34 @@ func vfLinearizable(ops []vfLinOp, init []byte) (bool, string) {
 	sort.Slice(sorted, func(i, j int) bool { return sorted[i].Call < sorted[j].Call })
 	s := ""
 	for _, o := range sorted {
-		s += fmt.Sprintf("  g%d.%d %s off=%d data=%x size=%d  [%d,%d]\n", o.G, o.I, o.Kind, o.Off, o.Data, o.Size, o.Call, o.Ret)
+		s += fmt.Sprintf("  g%d.%d %s off=%d data=%s size=%d  [%d,%d]\n", o.G, o.I, o.Kind, o.Off, vfRuns(o.Data), o.Size, o.Call, o.Ret)
 	}
 	return false, s
 }
 
+// vfRuns prints a byte string as runs of equal bytes ("01x40000 00x9152").
+func vfRuns(b []byte) string {
+	if len(b) <= 16 {
+		return fmt.Sprintf("%x", b)
+	}
+	s := ""
+	for i := 0; i < len(b); {
+		j := i
+		for j < len(b) && b[j] == b[i] {
+			j++
+		}
+		if len(s) > 200 {
+			return s + "..."
+		}
+		s += fmt.Sprintf("%02xx%d ", b[i], j-i)
+		i = j
+	}
+	return s
+}
+
 func vfRunC15(ctx *vfCtx, c vfCaseC15) {
 	baseline := vfPkgGoroutineIDs()
-	ctx.Class("server=" + c.Kind)
+	ctx.Class(fmt.Sprintf("server=%s size=%d", c.Kind, c.Size))
 	init := make([]byte, c.Size) // zeros: every written tag byte is non-zero
 	var srv *vfSrv
 	var err error
@@ -150,7 +197,7 @@ func vfRunC15(ctx *vfCtx, c vfCaseC15) {
 	if c.Kind == "rs" {
 		h = newVfH()
 		h.addFile("/t", init)
-		srv, err = vfStartSrv(vfSrvCfg{Kind: "rs", Alloc: c.Alloc, HOpts: vfHOpts{OpenFile: true}}, "", h)
+		srv, err = vfStartSrv(vfSrvCfg{Kind: "rs", Alloc: c.Alloc, MaxTx: c.MaxTx, HOpts: vfHOpts{OpenFile: true}}, "", h)
 	} else {
 		root := vfTempDir("vfc15")
 		defer os.RemoveAll(root)
